@@ -753,7 +753,13 @@ func binary(p *Parser, left Expr) (Expr, error) {
 	}
 	opToken := *p.previous
 
-	expr, err := p.expressionWithPrec(p.rule(opToken.Tag).prec)
+	// binary operators group left to right: the right operand may only contain
+	// tighter-binding operators. compound assignments group right to left
+	prec := p.rule(opToken.Tag).prec
+	if prec != PrecAssign {
+		prec++
+	}
+	expr, err := p.expressionWithPrec(prec)
 	if err != nil {
 		return nil, err
 	}
